@@ -9,6 +9,7 @@
   on every state the concurrent harness and the model replay visit.
 -/
 import Gobptree.Proofs.ConcOwner
+import Gobptree.ConcRank
 
 namespace Gobptree.Conc
 open Gobptree
@@ -136,5 +137,31 @@ theorem ranked_not_deadlocked (rank : Lk → Nat) (c : Config K V) (ho : OwnerOk
     intro h; rw [h] at hnf; cases hnf
   obtain ⟨l, k, hp, _⟩ := hwait t th hth hnf'
   exact climb _ t th l k hth hp rfl
+
+end Gobptree.Conc
+
+
+namespace Gobptree.Conc
+open Gobptree
+
+variable {K V : Type}
+
+theorem rankedB_iff (c : Config K V) : rankedB c = true ↔ Ranked (levelRank c.tree) c := by
+  unfold rankedB Ranked
+  rw [List.all_eq_true]
+  constructor
+  · intro h th hth l k hp x hx
+    have := h th hth
+    rw [hp] at this
+    simp only [List.all_eq_true, decide_eq_true_eq] at this
+    exact this x hx
+  · intro h th hth
+    cases hp : th.park with
+    | want l k =>
+      simp only [List.all_eq_true, decide_eq_true_eq]
+      exact fun x hx => h th hth l k hp x hx
+    | start => rfl
+    | yielded k => rfl
+    | finished => rfl
 
 end Gobptree.Conc
